@@ -4,6 +4,10 @@ import ParryModel.C17.Theorems3
 import ParryModel.C17.Theorems4
 import ParryModel.C17.Theorems5
 import ParryModel.C17.Theorems6
+import ParryModel.C17.Theorems7
+import ParryModel.C17.Theorems9
+import ParryModel.C17.Theorems10
+import ParryModel.C17.Theorems11
 /-!
 # C17 property theorems: cutting and clipping, for every linearly ordered field.
 All statements quantify over the model functions of `C17/Model.lean` instantiated at the lawful instance `fieldNum K sq`.
